@@ -140,11 +140,11 @@ def piece_a(plan):
 def piece_b(plan):
     def b(ctx):
         p = Piece(2, plan)
-        k = ctx.int("k", 0, 5)
+        k = ctx.int("k", 0, 3)
         p.add(0, 60, 18 * k, 24, ctx.int("v1", 1, 40))
-        k2 = ctx.int("k2", 0, 4)
+        k2 = ctx.int("k2", 0, 3)
         p.add(1, 61, 24 * k2, [6, 12, 24][ctx.int("i2", 0, 2)], ctx.int("v2", 20, 30))
-        p.add(1, 62, 24 * k2 + 24 + 12 * ctx.int("g", 0, 8), 12, 64)
+        p.add(1, 62, 24 * k2 + 24 + 12 * ctx.int("g", 0, 6), 12, 64)
         return 2, p
     return b
 
